@@ -4,7 +4,7 @@
    encoders are the go2v translations (int, long, double, date) and the hand models of
    encodeString/encodeBinary.  The structural part (class definitions, field names, list type
    names, counts, reference ordinals) is decided by the reference parser run on every emitted
-   message and by the encoder model's correspondence - see Props/C02struct.v when present. *)
+   message and by the encoder model's correspondence; its theorem is in Props/C02struct.v. *)
 From Coq Require Import ZArith List.
 From GH Require Import Base.GoSem Base.Result Base.FloatBits Base.TimeSem Base.Utf8 Gen.GoLeaf Model.Scalars Model.Strings Spec.Grammar Proofs.SpecScalars.
 Import ListNotations.
